@@ -185,6 +185,13 @@ FAULT_RE = re.compile(r"^At line (\d+):")
 def run_case(case: Dict[str, Any], max_steps: int = 200) -> Dict[str, Any]:
     """Execute the case's subroutines on the real executor, one instruction at
     a time, logging the projected state after every step."""
+    if case.get("hw"):
+        from netqasm.runtime import settings as _settings
+        _settings.set_is_using_hardware(True)
+        try:
+            return run_case({k: v for k, v in case.items() if k != "hw"}, max_steps) | {"hw": True}
+        finally:
+            _settings.set_is_using_hardware(False)
     app = 0
     ex = fresh_executor(meas_script=case["meas"])
     ex.init_new_application(app_id=app, max_qubits=case["umsize"])
